@@ -693,6 +693,8 @@ def report_violations(ctx, case, res):
 
 
 def correspond(ctx):
+    from tools.harness import synonyms
+    synonyms.check(ctx, {"enablePackrat", "enableLeftRecursion", "disableMemoization", "resetCache", "setDefaultWhitespaceChars", "setDefaultKeywordChars", "inlineLiteralsUsing"}, 'settings')
     # names first (needed to build the cases): one tiny worker call
     info = run_worker([])
     diag_names, compat_names = info["diag_names"], info["compat_names"]
